@@ -21,47 +21,44 @@ FILES = [
 ]
 
 
+SCANS_Q = [(1, 1), (0, 1), (1, 0)]
+SCANS_T = [(1, 1), (0, 1), (1, 0), (2, 1), (1, 2), (0, 2), (2, 0), (2, 2)]
+
+
 def spec(tier, seed):
     q = tier == "quick"
     inst = []
     for (o, n, a, b) in (rotate(HEADERS, seed, 6) if q else HEADERS):
         inst.append(Instance("c12i_hdr_o%d_n%d_%d_%d" % (o, n, a, b), "parser", "t_write_header(%d, %d, %d, %d)" % (o, n, a, b), unwind=26, unwindset={"memcmp.0": 6},
-                             stubs=[FROM_UTF8_STUB], mem_gb=14, timeout_s=1500, sub="C12 (i) hunk header round trip", params=dict(old_start=o, new_start=n, old_lines=a, new_lines=b)))
-    for (ops, o, n, a, b) in (BODIES[:5] if q else BODIES):
-        k = len(ops)
-        arr = ", ".join("b'%s'" % c for c in ops)
-        nm = "c12ii_%s_o%d%s%s" % (ops.replace(" ", "c").replace("-", "m").replace("+", "p"), o, "_nnlo" if a else "", "_nnln" if b else "")
-        nold = sum(1 for c in ops if c != "+")
-        nnew = sum(1 for c in ops if c != "-")
-        hdr = "@@ -%d,%d +%d,%d @@" % (o if nold == 0 else o + 1, nold, n if nnew == 0 else n + 1, nnew)
-        inst.append(Instance(nm, "parser", "t_write_body::<%d>([%s], %d, %d, %s, %s, %s)" % (k, arr, o, n, str(a).lower(), str(b).lower(), bytes_lit(hdr.encode())), unwind=60,
-                             unwind_fns=dict(writer_loops(k, 160), **{"libpatch::patch::unified::parser::parse_hunk.0": k + 2}),
-                             unwindset={"memcmp.0": 6}, stubs=[FROM_UTF8_STUB], mem_gb=12, timeout_s=2400,
-                             sub="C12 (ii) hunk body round trip: edit script from the matrix (distinct positions carry distinct lines), symbolic bytes",
-                             must_cover=["round trip done"], params=dict(edit_script=ops, start=o, no_newline_old_last=a, no_newline_new_last=b)))
-    # (ii') writer lemma by record scan (the direct round trip through the parser does not finish even for 2 lines:
-    # the layout of the written body depends on symbolic line equalities, so the parser runs on a symbolic-layout buffer)
-    for (ko, kn) in []:   # does not finish even for one line per side (symbolic layout): kept for reference, not run
+                             stubs=[FROM_UTF8_STUB], mem_gb=14, timeout_s=1500, sub="C12 (i) hunk header round trip (real formatter, concrete numbers)",
+                             params=dict(old_start=o, new_start=n, old_lines=a, new_lines=b)))
+    # (ii') writer lemma by record scan.  The direct round trip through the parser does not finish even for 2 lines: the layout
+    # of the written body depends on symbolic line equalities, so the nom parser would run on a buffer of symbolic layout.
+    for (ko, kn) in (SCANS_Q if q else SCANS_T):
         hdr = "@@ -%d,%d +%d,%d @@" % (3 if ko == 0 else 4, ko, 3 if kn == 0 else 4, kn)
-        inst.append(Instance("c12ii_scan_%d_%d" % (ko, kn), "parser", "t_write_scan::<%d, %d>(%s)" % (ko, kn, bytes_lit(hdr.encode())), unwind=max(26, 3 * (ko + kn) + 8),
-                             unwindset={"memcmp.0": 4}, mem_gb=12, timeout_s=2400, sub="C12 (ii') writer lemma: records are the two sides in order",
-                             must_cover=["no context record"], params=dict(old_lines=ko, new_lines=kn, bytes="symbolic, 4-letter alphabet")))
-    for nm, text in (FILES[:7] if q else FILES):
-        inst.append(Instance("c12iii_%s" % nm, "parser", "t_write_file(%s)" % bytes_lit(text), unwind=max(len(text), 120) + 4, unwindset={"memcmp.0": 20},
-                             stubs=[FROM_UTF8_STUB], mem_gb=10, timeout_s=2400, sub="C12 (iii) file header round trip (concrete)", must_cover=["file round trip done"],
-                             params=dict(template=nm)))
+        k = max(ko, kn, 1)
+        inst.append(Instance("c12ii_scan_%d_%d" % (ko, kn), "parser", "t_write_scan::<%d, %d>(%s)" % (ko, kn, bytes_lit(hdr.encode())), unwind=max(20, 3 * (ko + kn) + 8),
+                             unwindset={"memcmp.0": 4}, unwind_fns=writer_loops(k, 64), mem_gb=12, timeout_s=2400,
+                             sub="C12 (ii') writer lemma: the written records are the two sides in order, context only for equal lines",
+                             must_cover=["no context record"], params=dict(old_lines=ko, new_lines=kn, bytes="symbolic, 4-letter alphabet incl. backslash")))
     from . import _mir
     return {
         "instances": inst,
         "mir_vcs": [{"name": "start lines survive write-then-parse for every value (write_header_to x parse_hunk::target_line)", "function": "write_header_to", "target": "lib",
                      "run": lambda f, v, w: _mir.vc_start_line_roundtrip(f, v, w)}],
         "level": "model_checking",
-        "functions": ["Hunk::write_header_to", "TextHunk::write_to (find_closest_match)", "write_file_patch_header_to", "FilePatch::write_to", "parse_hunk_header", "parse_hunk", "parse_patch"],
-        "symbolic": "(ii) every line byte (4-letter alphabet incl. backslash); (i)/(iii) concrete: start lines / header templates from the matrix",
-        "bounds": {"lines_per_hunk": "<= 3", "start_lines": [0, 1, 9, 10, 99], "file_header_templates": len(FILES)},
+        "functions": ["Hunk::write_header_to", "TextHunk::write_to (find_closest_match)", "parse_hunk_header", "parse_hunk (target_line, MIR)"],
+        "symbolic": "(ii') every line byte (4-letter alphabet incl. backslash); (i) concrete start lines / counts from the matrix through the real formatter; "
+                    "start-line arithmetic: every 64-bit value (MIR VC)",
+        "bounds": {"lines_per_hunk_side": "<= 1 (quick), <= 2 (thorough)", "start_lines": [0, 1, 9, 10, 99], "loop_unrolling": "per-loop bounds with unwinding assertions"},
         "assumptions": ["output goes to a fixed-size sink implementing io::Write (no allocation)", "from_utf8 stub, memchr stand-in; replay on the real ones",
-                        "prefix/suffix context *counts* may legitimately change when a removed and an added line are equal: only line sequences and start lines are compared",
-                        "names without white-space or quotes (a name that needs quoting is a recorded finding: the writer does not quote)"],
-        "outside": ["hunks with more than 3 lines (symbolic output layout makes the parser run on a buffer of symbolic length)", "garbage between file patches, patch header text"],
-        "explanation": "write(parse(x)) is parsed back and compared structurally; write(parse(write(p))) is compared bytewise",
+                        "(ii') the hunk header text is canned (core::fmt is only executed in (i)); with C01 lemma 1 (a text of such records parses to exactly its edit script) "
+                        "the scan lemma gives write-then-parse for the body; the writer reads nothing but the two sequences and the start lines, so writing the re-parsed hunk reproduces the text",
+                        "prefix/suffix context *counts* may legitimately change when a removed and an added line are equal: only line sequences and start lines are compared"],
+        "outside": ["the direct parse(write(h)) round trip on symbolic bytes and hunks with more than 2 lines per side (formula exceeds 12 GB)",
+                    "file headers (names, modes, hashes, rename flag; git metadata keywords): the formatter's output is not observable with a canned sink and the real formatter + parse_patch "
+                    "exceeds 10 GB even on a concrete 30-byte patch; the 'deleted file mode' keyword defect named in the property text was repaired by hand (fix: c510d98) and is covered by no check",
+                    "lines without terminator inside the writer ('\\ No newline' tag emission)", "garbage between file patches, patch header text"],
+        "explanation": "hunk level only: header numbers round-trip (Kani on concrete numbers through the real formatter, MIR VC for every value), and the body the writer emits is, record by record, "
+                       "the old and new sequences in order",
     }
